@@ -1177,6 +1177,14 @@ static int emit_cases(const eng::Args& a)
                 }
                 x.set("posdigest", std::to_string((unsigned long long)dg));
             }
+            if (e.rr.error_tokens.size() <= 1 && !e.rr.recovered && (!g.uses_error() || e.rr.error_tokens.empty()))
+            {   // the terms a verbose parse reports as recognised (display names), for parses without recovery: every term up to the offending one, <eof> when the end was looked at
+                std::string rec; size_t upto = e.L.toks.size(); bool eof_seen = e.rr.accepted;
+                if (!e.rr.accepted) { if (e.rr.lex_error_reached) upto = e.L.toks.size(); else { upto = size_t(e.rr.error_token) < e.L.toks.size() ? size_t(e.rr.error_token) + 1 : e.L.toks.size(); eof_seen = size_t(e.rr.error_token) >= e.L.toks.size(); } }
+                for (size_t i = 0; i < upto; ++i) { rec += tname(e.L.toks[i].term); rec += '\x1f'; }
+                if (eof_seen) rec += "<eof>\x1f";
+                x.set("recognized_hex", vj::hex(rec)); x.set("shifted", (unsigned long long)e.rr.shifted_tokens.size());
+            }
             x.set("kind", e.rr.accepted ? (e.rr.error_tokens.empty() ? "accepted" : "accepted-after-recovery") : (e.rr.lex_error_reached ? "lexical-failure" : "syntax-failure"));
             ins.push(x); if (e.rr.accepted) ++nacc; else ++nrej;
         }
